@@ -175,5 +175,252 @@ def gen_configs(seed, nrandom):
     return cfgs
 
 
+# ----------------------------------------------------------------------------- design check
+def _summary(r):
+    m = re.search(r'<<"SUMMARY", "(.*)">>', r.out)
+    if not m:
+        return None
+    return json.loads(m.group(1).replace('\\"', '"'))
+
+
+def _scenarios_of(out):
+    res = {}
+    for m in re.finditer(r'<<"SCEN", "(.*)">>', out):
+        s = json.loads(m.group(1).replace('\\"', '"'))
+        res[(s["c"], s["pt"], s["mat"], s["e0"], s["m"])] = s
+    return [res[k] for k in sorted(res)]
+
+
+def _mc_cfg(ctx, base, consts):
+    with open(os.path.join(vlib.SPEC, base + ".cfg")) as fh:
+        txt = fh.read()
+    for k, v in consts.items():
+        txt, n = re.subn(r"(?m)^(\s*%s\s*=\s*).*$" % re.escape(k), lambda m: m.group(1) + str(v), txt)
+        if n != 1:
+            raise vlib.Broken("constant %s not found in %s.cfg" % (k, base))
+    path = ctx.path(base + ".cfg")
+    with open(path, "w") as fh:
+        fh.write(txt)
+    return path
+
+
+def _design(ctx, cfgs_path, mut_cfgs_path):
+    q = ctx.quick
+    consts = {} if q else {"MaxSteps": 3}
+    env = {"CFGS": cfgs_path}
+    jobs = [dict(module="PhysSelectMC", cfg=_mc_cfg(ctx, "PhysSelectMC", consts), workers=3, timeout=3000, heap="6g",
+                 env=env)]
+    # the design mutants run on the hand-picked configurations only (they must be refuted there)
+    jobs += [dict(module="PhysSelectMC", cfg="PhysSelectMC_mut_" + v, workers=1, timeout=900, heap="2g",
+                  env={"CFGS": mut_cfgs_path}) for v in MUTANTS]
+    res = vlib.tlc_parallel(jobs, maxpar=2)   # 3 workers + one mutant at a time = 4 threads
+    main = res[0]
+    if main.code != 0:
+        if main.violated:
+            ctx.violation("design model PhysSelectMC violates %s:\n%s" % (main.violated_names(), main.out[-2500:]),
+                          tags={"design": "PhysSelectMC"})
+            return main, [], {}
+        raise vlib.Broken("TLC failed on PhysSelectMC (exit %d):\n%s" % (main.code, main.out[-3000:]))
+    refuted = {}
+    for v, r in zip(MUTANTS, res[1:]):
+        names = re.findall(r"Invariant (\w+) is violated", r.out)
+        if not names:
+            raise vlib.Broken("vacuity guard: design mutant %s was not refuted (exit %d)\n%s" % (v, r.code, r.out[-1500:]))
+        refuted[v] = names[0]
+    return main, _scenarios_of(main.out), refuted
+
+
+# ----------------------------------------------------------------------------- loop runs
+def _unit(rng):
+    import math
+    cz = 2 * rng.random() - 1
+    ph = 2 * math.pi * rng.random()
+    sz = math.sqrt(max(0.0, 1 - cz * cz))
+    return [sz * math.cos(ph), sz * math.sin(ph), cz]
+
+
+def _loop_runs(seed, n):
+    rng = random.Random(seed * 104729 + 5)
+    runs = []
+    for i in range(n):
+        nprim = rng.randint(6, 12)
+        prims = []
+        for k in range(nprim):
+            pt = (0, 0, 1, 1, 2, 2)[rng.randrange(6)]
+            E = 0.05 * (40 / 0.05) ** rng.random()
+            if k == 0:
+                pt, E = 2, 0.3 * (1 + rng.random())    # a positron that stops and annihilates at rest
+            if k == 1:
+                pt, E = 1, 0.3 + 0.5 * rng.random()    # an electron crossing the 0.25 MeV xs threshold
+            r = 4.5 if rng.random() < 0.75 else 30.0
+            prims.append(dict(ev=k % 2, pt=pt, E=E, pos=[r * (2 * rng.random() - 1) for _ in range(3)], dir=_unit(rng)))
+        runs.append(dict(id=1000 + i, prims=prims, slots=rng.choice([2, 4, 8]), rng_seed=rng.randrange(1, 1 << 30),
+                         table_scale=rng.choice([0.5, 1.0, 2.0, 5.0]), dedx=rng.choice([1.0, 2.0, 4.0]),
+                         fixed_step=rng.choice([0.0, 0.0, 0.05, 0.3]), fluct=(i % 4 == 3), maxiters=1500))
+    return runs
+
+
+def _harness(ctx, mode, name, payload):
+    inp = ctx.path(name + ".in.json")
+    out = ctx.path(name + ".ndjson")
+    with open(inp, "w") as fh:
+        json.dump(payload, fh, separators=(",", ":"))
+    r = vlib.run_harness("vphysselect", [mode, inp, out], timeout=1200, check=False)
+    if r.returncode != 0 or not os.path.exists(out):
+        # a crash / hang inside the code under test: keep what was written; no Close -> rejected trace
+        if r.returncode == 124 or r.returncode < 0 or r.returncode == 3:
+            with open(out, "a") as fh:
+                fh.write("\n" + json.dumps({"e": "Abort", "what": "vphysselect exit %d" % r.returncode}) + "\n")
+        else:
+            raise vlib.Broken("vphysselect %s %s failed (exit %d): %s" % (mode, inp, r.returncode, (r.stderr or "")[-2000:]))
+    return out
+
+
+def _record(path, k):
+    try:
+        with open(path) as fh:
+            for i, line in enumerate(fh, 1):
+                if i == k:
+                    return line.strip()
+    except OSError:
+        pass
+    return ""
+
+
+def _explain(path, clause, k):
+    """Human-readable input of the record that violated a clause (the spec decided, not this)."""
+    line = _record(path, k)
+    try:
+        r = json.loads(line)
+    except ValueError:
+        return line[:800]
+    if r.get("e") == "Pre":
+        head = {x: r[x] for x in ("c", "pt", "mat", "e0", "m", "pp", "tot", "step", "stepinf", "act", "rng", "m1",
+                                  "hm0", "hm1", "inexact")}
+        return "Pre %s first selections %s" % (json.dumps(head), json.dumps(r["sel"][:4]))
+    if r.get("e") == "Config":
+        return "Config id %s note %r built %s what %s" % (r["cfg"]["id"], r["cfg"].get("note"), r["built"],
+                                                         r.get("what", "")[:200])
+    return line[:1200]
+
+
 def run(ctx):
-    raise vlib.Broken("X07 under construction")
+    vlib.build(["vphysselect"])
+    q = ctx.quick
+    t0 = time.time()
+    cfgs = gen_configs(ctx.seed, 5 if q else 24)
+    cfgs_path = ctx.path("cfgs.json")
+    with open(cfgs_path, "w") as fh:
+        json.dump(cfgs, fh)
+    mut_path = ctx.path("cfgs_hand.json")
+    with open(mut_path, "w") as fh:
+        json.dump(_hand_configs(), fh)
+    main, scen, refuted = _design(ctx, cfgs_path, mut_path)
+    vlib.log("X07 design check: %d states, %d transitions, %d scenarios, mutants %s, %.0fs"
+             % (main.distinct, main.generated, len(scen), refuted, time.time() - t0))
+    if ctx.violations:
+        return
+    if not scen:
+        raise vlib.Broken("PhysSelectMC emitted no replay scenario")
+
+    # ------------------------------------------------------------------ harness runs
+    t0 = time.time()
+    nsh = 3 if q else 4
+    byc = {}
+    for s in scen:
+        byc.setdefault(s["c"], []).append(s)
+    shards = [[] for _ in range(nsh)]
+    for i, c in enumerate(cfgs):
+        shards[i % nsh].append(c)
+    jobs = []
+    for i, sh in enumerate(shards):
+        ids = {c["id"] for c in sh}
+        jobs.append(("api", "api%02d" % i, {"D": D, "LS": LS, "cfgs": sh,
+                                            "scen": [s for cid in sorted(ids) for s in byc.get(cid, [])]}))
+    lruns = _loop_runs(ctx.seed, 12 if q else 160)
+    nls = 2 if q else 8
+    for i in range(nls):
+        jobs.append(("loop", "loop%02d" % i, {"runs": lruns[i::nls]}))
+    with cf.ThreadPoolExecutor(max_workers=4) as ex:
+        outs = list(ex.map(lambda j: _harness(ctx, j[0], j[1], j[2]), jobs))
+    nsel = sum(len(s["sel"]) for s in scen)
+    vlib.log("X07 harness: %d configurations, %d pre-step scenarios, %d selections, %d loop runs, %.0fs"
+             % (len(cfgs), len(scen), nsel, len(lruns), time.time() - t0))
+
+    # ------------------------------------------------------------------ trace validation
+    t0 = time.time()
+    tj = [dict(module="PhysSelectTrace", cfg="PhysSelectTrace", workers=1, env={"TRACE": p}, timeout=3000, heap="3g")
+          for p in outs]
+    results = vlib.tlc_parallel(tj, maxpar=4)
+    vlib.log("X07 trace validation: %.0fs" % (time.time() - t0))
+    stat, cnt = {}, {}
+    samples = []
+    for (mode, name, payload), path, r in zip(jobs, outs, results):
+        summ = _summary(r)
+        if r.code != 0 or summ is None:
+            if "REJECTED" in r.out or r.violated:
+                ctx.violation("trace %s is not a behaviour of PhysSelectTrace:\n%s" % (name, vlib.rejected_info(r)),
+                              tags={"structural": "rejected"}, files=[path, ctx.path(name + ".in.json")])
+                continue
+            raise vlib.Broken("TLC failed on %s (exit %d):\n%s" % (name, r.code, r.out[-3000:]))
+        for k, v in summ["stat"].items():
+            stat[(mode + ":" + k)] = stat.get(mode + ":" + k, 0) + v
+        c = summ["cnt"] if isinstance(summ["cnt"], dict) else {}
+        firsts = {}
+        for clause, line in summ["viol"]:
+            firsts.setdefault(clause, []).append(line)
+        for clause, n in sorted(c.items()):
+            cnt[clause] = cnt.get(clause, 0) + n
+            ex = "\n".join("record %d: %s" % (k, _explain(path, clause, k)) for k in sorted(firsts.get(clause, []))[:2])
+            ctx.violation("clause %s violated by %d record(s) of %s (vphysselect %s %s)\n%s"
+                          % (clause, n, name, mode, ctx.path(name + ".in.json"), ex),
+                          tags={"clause": clause, "mode": mode}, files=[path, ctx.path(name + ".in.json")])
+        if mode == "api" and len(samples) < 4:
+            line = _record(path, 4)
+            if line:
+                rec = json.loads(line)
+                if rec.get("e") == "Pre":
+                    rec["sel"] = rec["sel"][:3]
+                    samples.append(rec)
+    # vacuity: the runs must have exercised what the clauses talk about
+    if not ctx.violations:
+        need = {"api:built": 6, "api:refused": 5, "api:pre": 300, "api:sel": 5000, "api:rejected": 100,
+                "api:element2": 50, "api:selties": 50, "api:stopped": 3, "api:atrest_sel": 10, "api:steptie": 3,
+                "api:act:physics-discrete-select": 50, "api:act:eloss-range": 50, "api:act:physics-fixed-step": 10,
+                "api:act:none": 1,
+                "loop:steps": 500, "loop:discrete": 50, "loop:rejected": 3, "loop:carried": 100,
+                "loop:decremented": 100, "loop:forced": 1, "loop:stopped0": 1}
+        low = {k: stat.get(k, 0) for k, v in need.items() if stat.get(k, 0) < v}
+        if low:
+            raise vlib.Broken("X07 binding is vacuous: too few records of kind %s (need %s)" % (low, need))
+    ctx.coverage.update({
+        "states": main.distinct, "transitions": main.generated,
+        "traces_validated_against_impl": len(outs),
+        "samples": samples or [{"note": "no sample"}],
+        "evaluations": stat.get("api:sel", 0) + stat.get("api:pre", 0) + stat.get("loop:steps", 0),
+        "distinct_nontrivial": len(scen),
+        "rule": "states/transitions: PhysSelectMC exhaustive within its constants for the generated configurations "
+                "(every start energy, sampled distance, step outcome, uniform a/%d); api = EVERY first pre-step state "
+                "with floating-point-exact numbers emitted by that run and EVERY selection input reachable from it is "
+                "replayed on the real PhysicsParams/PhysicsTrackView/PhysicsStepUtils; loop = seeded runs of the real "
+                "stepping loop; evaluations = selections + pre-steps + loop track-steps validated by TLC; "
+                "distinct_nontrivial = distinct replayed pre-step scenarios" % D,
+        "exhaustive": True,
+        "configurations": len(cfgs), "scenarios_replayed": len(scen), "selections_replayed": nsel,
+        "loop_runs": len(lruns), "impl_stats": stat, "clause_counts": cnt, "design_mutants_refuted": refuted,
+    })
+    ctx.assumptions += [
+        "api mode: hand-made Process/Model classes with plateau tables on the grid 1,2,4,.. MeV (XsCalculator/RangeCalculator "
+        "return the tabulated integers exactly; the harness counts inexact values and the spec demands zero); "
+        "min_range 1e6 cm or max_step_over_range 1 make range_to_step the identity (its formula is C14's subject)",
+        "uniforms a/%d (a=%d: largest double below one) enter through a scripted 32-bit engine and the production "
+        "GenerateCanonical32" % (D, D),
+        "precondition XsWithinModels (PhysSelect.tla): a process' cross section vanishes at every track energy outside its "
+        "model ranges; selections that would find no model (NoModelOnlyAtEdge) are not replayed (undefined behaviour in a "
+        "release build)",
+        "hardwired on-the-fly cross sections (e+ annihilation) are exercised only in loop mode (probed through calc_xs); "
+        "Livermore PE / CHIPS are not exercised",
+        "loop mode: MSC off, linear propagation; the candidates mfp/total and mfp - step*total are formed by the harness from "
+        "logged values (brackets 1e-12 relative); total = sum of per-process xs checked in quanta of 2^-24 of the largest",
+        "build has CELERITAS_DEBUG=OFF (release behaviour; CELER_ASSERT/EXPECT are not evaluated)",
+    ]
